@@ -292,3 +292,9 @@ def r12_6(ctx):
 def r12_7(ctx):
     from .c04 import r04_6
     r04_6(ctx)
+
+
+@rule("R12.8", min_instances=4, desc="an edit of a sub-stage after a solve invalidates the OCP's cached transcription (the flag of the master is the one that is read; shared with C13)")
+def r12_8(ctx):
+    from .c13 import r13_7
+    r13_7(ctx)
